@@ -182,6 +182,44 @@ func checkSessionContexts(w *rand.Rand, ids []sim.ID, ctxs, other map[sim.ID]*se
 		sort.Slice(masks, func(i, j int) bool { return masks[i] < masks[j] })
 	}
 	tapeSeen := map[string]uint32{string(t0): 0}
+	// Every party derives its sub-contexts in its own order, some of them twice:
+	// derivation must be a pure function of (parent context, sub-quorum), whatever
+	// the party derived before.
+	derived := map[sim.ID]map[uint32]*session.Context{}
+	for i, id := range ids {
+		derived[id] = map[uint32]*session.Context{}
+		var mine []uint32
+		for _, mask := range masks {
+			if mask&(1<<i) != 0 {
+				mine = append(mine, mask)
+				if w.IntN(4) == 0 {
+					mine = append(mine, mask) // derived twice
+				}
+			}
+		}
+		w.Shuffle(len(mine), func(a, b int) { mine[a], mine[b] = mine[b], mine[a] })
+		for _, mask := range mine {
+			q := maskSet(ids, mask)
+			sc, err := ctxs[id].SubContext(quorumOf(q))
+			if err != nil {
+				return fail("subcontext-error", "SubContext(%v) at %d: %v", q, id, err)
+			}
+			if prev, again := derived[id][mask]; again {
+				for _, o := range q {
+					if o == id {
+						continue
+					}
+					a, _ := seedHead(prev, o, 32)
+					b, _ := seedHead(sc, o, 32)
+					if !bytes.Equal(a, b) {
+						return fail("subcontext-not-reproducible", "party %d derived the sub-context of %v twice and got different seeds for peer %d", id, q, o)
+					}
+				}
+				probes["subcontext_derived_twice"]++
+			}
+			derived[id][mask] = sc
+		}
+	}
 	for _, mask := range masks {
 		var q []sim.ID
 		for i, id := range ids {
@@ -191,11 +229,7 @@ func checkSessionContexts(w *rand.Rand, ids []sim.ID, ctxs, other map[sim.ID]*se
 		}
 		sub := map[sim.ID]*session.Context{}
 		for _, id := range q {
-			sc, err := ctxs[id].SubContext(quorumOf(q))
-			if err != nil {
-				return fail("subcontext-error", "SubContext(%v) at %d: %v", q, id, err)
-			}
-			sub[id] = sc
+			sub[id] = derived[id][mask]
 		}
 		res := subRes{seeds: map[[2]sim.ID][]byte{}}
 		for i, id := range q {
